@@ -132,6 +132,18 @@ def run_impl(case):
             return {"cli_rows": reread, "out": _rows_out(read_cna(fout).data, purity)}
         finally:
             shutil.rmtree(d, ignore_errors=True)
+    if i.get("variants"):
+        # b-allele frequencies supplied as a VariantArray: do_call takes the per-segment BAF from
+        # variants.baf_by_ranges (C18's subject: its values enter the model as a parameter) and rescales it for purity
+        from cnvlib.vary import VariantArray
+        va = VariantArray.from_rows([(c, p, p + 1, "A", "G", f) for c, p, f in i["snps_f"]],
+                                    columns=["chromosome", "start", "end", "ref", "alt", "alt_freq"],
+                                    meta_dict={"sample_id": "S"})
+        va.sort()
+        bafs = [None if b != b else float(b) for b in np.asarray(va.baf_by_ranges(cna), dtype=float)]
+        out = call.do_call(cna, va, i["method"], i["ploidy"], purity, i["hapX"], i["female"], i["par"],
+                           None, tuple(i["thr_f"]))
+        return {"var_baf": bafs, "out": _rows_out(out.data, purity)}
     out = call.do_call(cna, None, i["method"], i["ploidy"], purity, i["hapX"], i["female"], i["par"],
                        None, tuple(i["thr_f"]))
     return _rows_out(out.data, purity)
@@ -154,6 +166,11 @@ def to_line(case, impl):
         line["in"]["n"] = [None for _ in impl["cli_rows"]]
         line["impl"] = impl["out"]
         return line
+    if isinstance(impl, dict) and "var_baf" in impl:
+        line["in"]["rows"] = [r[:5] + [None if b is None else frac(b)] for r, b in zip(i["rows"], impl["var_baf"])]
+        line["in"]["has_baf"] = True
+        line["impl"] = impl["out"]
+        return line
     line["impl"] = impl
     return line
 
@@ -170,6 +187,8 @@ def judge_with(clauses_of_interest):
         if isinstance(impl, dict) and "cli_rows" in impl:
             impl = impl["out"]
             rtol = 5e-5  # the rewritten log2 went through a file: 6 significant digits
+        if isinstance(impl, dict) and "var_baf" in impl:
+            impl = impl["out"]
         slack = [Fraction(s) for s in resp["slack"]]
         disagree = []
         knife = None
